@@ -19,6 +19,9 @@ type C01Case struct {
 	Mode  int           `json:"mode"` // 0 text, 1 pretty, 2 binary
 	Picks []int         `json:"picks"`
 	Vals  []model.Value `json:"vals"`
+	// FinishAfter: Finish is also called after the values with these indexes
+	// (several datagrams from one writer)
+	FinishAfter []int `json:"finish_after,omitempty"`
 }
 
 func pickerOf(picks []int) drive.Picker {
@@ -43,6 +46,34 @@ func writeDoc(mode drive.Mode, vals []model.Value, picks []int, ssts ...ion.Shar
 		w := drive.NewWriter(mode, &buf, ssts...)
 		if err := drive.WriteSeq(w, vals, pickerOf(picks)); err != nil {
 			return err
+		}
+		return w.Finish()
+	})
+	return buf.Bytes(), err
+}
+
+// writeDocFin is writeDoc with Finish also called after the values listed in fin.
+func writeDocFin(mode drive.Mode, vals []model.Value, picks []int, fin []int) ([]byte, error) {
+	if len(fin) == 0 {
+		return writeDoc(mode, vals, picks)
+	}
+	var buf bytes.Buffer
+	err := drive.Guard(func() error {
+		w := drive.NewWriter(mode, &buf)
+		pk := pickerOf(picks)
+		after := map[int]bool{}
+		for _, i := range fin {
+			after[i] = true
+		}
+		for i := range vals {
+			if err := drive.WriteSeq(w, vals[i:i+1], pk); err != nil {
+				return err
+			}
+			if after[i] {
+				if err := w.Finish(); err != nil {
+					return err
+				}
+			}
 		}
 		return w.Finish()
 	})
@@ -165,15 +196,18 @@ func symbolLooksReserved(s string) bool {
 func runC01(c C01Case) string {
 	st := Stat("C01")
 	mode := drive.Mode(c.Mode)
-	out, werr := writeDoc(mode, c.Vals, c.Picks)
+	out, werr := writeDocFin(mode, c.Vals, c.Picks, c.FinishAfter)
 	nt, classes := valueTraits(c.Vals)
 	classes = append(classes, "mode."+mode.String())
+	if len(c.FinishAfter) > 0 {
+		classes = append(classes, "several-datagrams")
+	}
 	if werr != nil {
 		st.Discard("writer_refused")
 		st.Discard("writer_refused: " + firstLine(werr.Error(), 60))
 		return ""
 	}
-	st.Eval(nt, model.Digest(c.Vals)^uint64(c.Mode+1)*0x9E3779B97F4A7C15, classes...)
+	st.Eval(nt, model.Digest(c.Vals)^uint64(c.Mode+1+8*len(c.FinishAfter))*0x9E3779B97F4A7C15, classes...)
 	st.Sample(func() string { return fmt.Sprintf("mode=%v vals=%s", mode, model.SeqString(c.Vals)) })
 	got, rerr := drive.Observe(ion.NewReaderBytes(out))
 	if rerr != nil {
@@ -223,6 +257,18 @@ func genC01(t *rapid.T) C01Case {
 	c.Vals = gen.Seq(t, cfg, 6)
 	if gen.Chance(t, 3) {
 		c.Vals = append(c.Vals, gen.Deep(t, gen.Range(t, 10, 64)))
+	}
+	if gen.Chance(t, 30) {
+		// several datagrams; half of the time the later ones repeat earlier values
+		// (no symbol that is new to the writer's table)
+		if gen.Chance(t, 50) && len(c.Vals) > 0 {
+			c.Vals = append(c.Vals, c.Vals[:gen.Range(t, 1, len(c.Vals))]...)
+		}
+		for i := range c.Vals {
+			if gen.Chance(t, 40) {
+				c.FinishAfter = append(c.FinishAfter, i)
+			}
+		}
 	}
 	return c
 }
